@@ -445,14 +445,14 @@ func FolderItemHeader(isDir bool, items [][]byte) []byte {
 // News
 
 type NewsArtListEntry struct {
-	ID        uint32
-	Date      [8]byte
-	Parent    uint32
-	Flags     [4]byte
-	Title     []byte
-	Poster    []byte
-	Flavor    []byte
-	BodySize  int
+	ID       uint32
+	Date     [8]byte
+	Parent   uint32
+	Flags    [4]byte
+	Title    []byte
+	Poster   []byte
+	Flavor   []byte
+	BodySize int
 }
 
 func (e NewsArtListEntry) Encode() []byte {
